@@ -503,11 +503,35 @@ func TestRaceChangeSetSnapshots(t *testing.T) {
 			}
 			groot = g.GetRoot()
 		}
-		validDeletes := map[int]bool{0: true}
-		rootIdx := map[string]int{string(groot): 0} // root -> number of writer operations applied (-1: reached twice)
-		delCounts := []int{0}
-		{
+		// half of the tries on existing state were brought up to date by a sync that also handed over dead nodes (a third
+		// of the existing nodes; the writer replaces some of them itself)
+		var dead []util.Node
+		if groot != nil && gen.Chance(rt, 50, "synceddead") {
+			i := 0
+			_ = base.Iterate(context.Background(), func(ctx context.Context, key util.Key, node util.Node) error {
+				if i%3 == 0 {
+					dead = append(dead, node.CloneNode())
+				}
+				i++
+				return nil
+			})
+			sort.Slice(dead, func(a, b int) bool { return dead[a].GetHash() < dead[b].GetHash() })
+		}
+		open := func() *util.MerklePatriciaTrie {
 			m := mptkit.NewTrie(util.NewLevelNodeDB(util.NewMemoryNodeDB(), base, false), version, groot)
+			if len(dead) > 0 {
+				if err := m.MergeDB(util.NewMemoryNodeDB(), groot, dead); err != nil {
+					rt.Fatalf("HARNESS: MergeDB: %v", err)
+				}
+			}
+			return m
+		}
+		nd0 := len(open().GetDeletes())
+		validDeletes := map[int]bool{nd0: true}
+		rootIdx := map[string]int{string(groot): 0} // root -> number of writer operations applied (-1: reached twice)
+		delCounts := []int{nd0}
+		{
+			m := open()
 			ref[string(groot)] = snap{0, 0}
 			for _, o := range script {
 				if _, err := m.Insert(util.Path(keyOf(o.i)), mptkit.Val(valOf(o.i, o.round))); err != nil {
@@ -525,7 +549,7 @@ func TestRaceChangeSetSnapshots(t *testing.T) {
 				}
 			}
 		}
-		mpt := mptkit.NewTrie(util.NewLevelNodeDB(util.NewMemoryNodeDB(), base, false), version, groot)
+		mpt := open()
 		var mu sync.Mutex
 		failure := ""
 		fail := func(f string, a ...any) {
@@ -647,7 +671,11 @@ func TestRaceChangeSetSnapshots(t *testing.T) {
 			rt.Fatalf("%s (keys %d, readers %d)", failure, nkeys, nreaders)
 		}
 		runtime.Gosched()
-		ev.Case(fmt.Sprint(nkeys, nreaders, version, len(script)), snapshots.Load() > 50, "change-set-snapshots-under-writer")
+		cls := []string{"change-set-snapshots-under-writer"}
+		if len(dead) > 0 {
+			cls = append(cls, "trie-synced-with-dead-nodes")
+		}
+		ev.Case(fmt.Sprint(nkeys, nreaders, version, len(script)), snapshots.Load() > 50, cls...)
 		ev.ExtraAdd("concurrent_change_set_snapshots", snapshots.Load())
 	})
 }
